@@ -168,7 +168,7 @@ func findFunctionCallViolation(
 	case *ast.Ident:
 		// Direct function call: CreateMockData()
 		funcName := fun.Name
-		if ctx.testOnlyFuncs.Match(*ctx.currentPkgPath, funcName, funcName) {
+		if isPackageLevelFunc(ctx, fun) && ctx.testOnlyFuncs.Match(*ctx.currentPkgPath, funcName, funcName) {
 			return &TestOnlyViolation{
 				Pos:         call.Pos(),
 				TestOnlyObj: funcName,
@@ -221,6 +221,16 @@ func findFunctionCallViolation(
 		}
 	}
 	return nil
+}
+
+// isPackageLevelFunc reports whether ident refers to a function declared at package level
+// of the current package (and not to a local variable or parameter with the same name)
+func isPackageLevelFunc(ctx *testOnlyContext, ident *ast.Ident) bool {
+	if ctx.pass.TypesInfo == nil {
+		return true
+	}
+	fn, ok := ctx.pass.TypesInfo.Uses[ident].(*types.Func)
+	return ok && fn.Pkg() == ctx.pass.Pkg && fn.Parent() == ctx.pass.Pkg.Scope()
 }
 
 // findTypeLiteralViolation checks composite literals for @testonly types
